@@ -316,8 +316,7 @@ PROPS = {
     },
     "C14": {
         "modules": ["SxVerif.Props.C14"],
-        "components": ["json", "proc"],
-        "components": ["json", "e2ejson"],
+        "components": ["json", "proc", "e2ejson"],
         "trusted_base": [
             "modelled, not verified: easyjson v0.7.7 jwriter.Writer.String / Uint8 / Uint16 and go1.23 encoding/json appendString (escapeHTML on), strconv.AppendInt/AppendUint, utf8.DecodeRuneInString (Model/Json.lean; validated byte-for-byte on every run, incl. all 256 single bytes through both escapers)",
             "encoding/json's reflection walk (struct tags, omitempty, nil map/slice/pointer = null, Marshaler types such as time.Time, []byte = base64, float64 formatting) is NOT modelled: the harness computes the value tree it walks (goVal in harness/cmd/sxdiff/json.go, floatEncoder copied verbatim) and the model renders that tree (sorting Go maps); the theorems cover every well-formed tree",
@@ -403,8 +402,7 @@ PROPS = {
     },
     "C18": {
         "modules": ["SxVerif.Props.C18"],
-        "components": ["parse", "e2erate"],
-        "components": ["parse", "e2efill"],
+        "components": ["parse", "e2erate", "e2efill"],
         "trusted_base": [
             "modelled, not verified: strconv.ParseUint(.,10,16) / ParseInt(.,10,32), strings.Split/TrimSpace/ToLower, bufio.Scanner line splitting with the 64 KiB limit, strconv.Unquote on the quoted payload (Model/Parse.lean); time.ParseDuration is a parameter `dur` of the rate theorems (the harness passes the real function's answer)",
             "flag tables regenerated from command/config.go and command/tcp.go by sxfacts (Generated/Flags.lean)",
